@@ -156,6 +156,12 @@ def install():
     cls.evaluate = evaluate
 
     seams.install_audit()
+    # everything imported so far goes to the permanent generation: garbage collections that the
+    # simulator triggers at seeded moments then only look at objects created by the run
+    import gc
+
+    gc.collect()
+    gc.freeze()
     _installed = True
     return MODS
 
